@@ -64,11 +64,11 @@ impl<'a> Visitor for V<'a> {
         if let (Some(op), Some(signer)) = (cx.op, cx.signer()) {
             if op.is_mutator() {
                 let scheme = fam.scheme();
-                let entry = post.get(scheme.key_name()).cloned();
+                let entry = post.get(fam.key_name()).cloned();
                 if entry.as_deref() != Some(&rlp::encode_str(&signer.pk)[..]) {
                     return Err(format!("{}: after a successful update the public key entry is not the signing key's", describe_step(cx)));
                 }
-                if node_id_of(scheme, &signer.pk) != Some(post.node_id) {
+                if node_id_for(fam, scheme, &signer.pk) != Some(post.node_id) {
                     return Err(format!("{}: after a successful update the node id is not the signing key's", describe_step(cx)));
                 }
             }
